@@ -13,7 +13,8 @@ CACHE = V + '/.cache'
 ENV = dict(os.environ, CARGO_NET_OFFLINE='true')
 # the tree under test; VERIF_REPO points the program checks at a scratch copy (mutation trials)
 REPO = os.environ.get('VERIF_REPO', '/repo')
-TAG = '' if REPO == '/repo' else '-' + str(abs(hash(REPO)) % 100000)
+import hashlib
+TAG = '' if REPO == '/repo' else '-' + hashlib.sha1(REPO.encode()).hexdigest()[:8]
 
 CARGO_TOML = '''[package]
 name = "%(name)s"
